@@ -33,7 +33,9 @@ PROP = dict(
                  "KV stores hold what the keepers' setters wrote (MustUnmarshal of a stored record does not panic)"],
     rule="each case is one (scenario state, real blocker) pair: a baseline run plus one fault run per selected store access of every "
          "wrapped unit (quick: first, last and strided accesses; thorough: every access), or one environment-fault run; "
-         "distinct = distinct trace text of the case, non-trivial = the blocker returned",
+         "distinct = distinct trace text of the case, non-trivial = the blocker returned; per-app cases (hooks.items.single): one real "
+         "liquidity blocker run with a fault in app k (natural poison or the j-th store access of app k's work), judged against the "
+         "real one-app runs; kick-off cases (hooks.kick.single): one (block, auction-mapping entry) of the real liquidationsV2.BeginBlocker",
 )
 
 META = dict(
@@ -51,5 +53,9 @@ META = dict(
          "auction; the second-generation liquidation BeginBlocker then panicked with a slice bound out of range in every block; e29235a) "
          "and D6 (second-generation borrow liquidations ran unwrapped; c15713f). The table also demands that every error produced inside a "
          "wrapped closure is returned (wrapped_units_propagate_errors) and the harness produces error-returning late failures per unit "
-         "(natural failures, per-item step oracle); monitors no_panic, unit_atomic, remaining_run.",
+         "(natural failures, per-item step oracle); monitors no_panic, unit_atomic, remaining_run. The table records for every wrapper "
+         "site the loop it sits in and the loops inside its closure (units_of_work_wrapped, wrapper_sites_and_their_loops) and multi-app "
+         "liquidity worlds check per-app granularity against the real one-app runs (seed s99). OPEN finding D-C15-1: the surplus kick-off "
+         "of liquidationsV2.BeginBlocker runs unwrapped, moves the lot out of the collector before it knows an English auction can start "
+         "and returns at the first failing entry (monitors kickoff_atomic, kickoff_remaining; known_findings.d/C15.json; patch in notes/C15.md).",
 )
